@@ -3,6 +3,8 @@
 #  (a) patch applies, (b) the unedited test suite still builds and passes with it (NDEBUG baseline flags),
 #  (c) the demonstration passes on the unmodified tree and fails with the change.  Log -> /verif/seeded/<id>/confirm.log
 id=$1; S=/verif/seeded/$id; W=/tmp/confirm
+# the unmodified tree is a pristine export of HEAD (never /repo's working tree, which a seed run may have patched at this moment)
+O=/tmp/confirm_orig; [ -d $O/include ] || { mkdir -p $O && git -C /repo archive HEAD | tar -x -C $O; }
 [ -d $W ] || git -C /repo worktree add --detach $W HEAD >/dev/null 2>&1
 cd $W && git checkout -- . && git clean -fdq -e _build && git checkout -q --detach $(git -C /repo rev-parse HEAD)
 {
@@ -14,11 +16,11 @@ ctest --test-dir _build -j8 --timeout 900 2>&1 | tail -3
 INC="-I/usr/include/eigen3"
 if [ -f $S/run_demo.sh ]; then
   bash $S/run_demo.sh $W > /tmp/confirm_demo_mod.out 2>&1; echo "demo on modified tree: exit $?"; tail -4 /tmp/confirm_demo_mod.out
-  bash $S/run_demo.sh /repo > /tmp/confirm_demo_orig.out 2>&1; echo "demo on unmodified tree: exit $?"; tail -2 /tmp/confirm_demo_orig.out
+  bash $S/run_demo.sh $O > /tmp/confirm_demo_orig.out 2>&1; echo "demo on unmodified tree: exit $?"; tail -2 /tmp/confirm_demo_orig.out
 else
 g++ -std=c++11 -O1 -pthread -I$W/include -I$W/external/tl $INC $S/demo.cpp -o /tmp/confirm_demo_mod 2>&1 | tail -5
 /tmp/confirm_demo_mod > /tmp/confirm_demo_mod.out 2>&1; echo "demo on modified tree: exit $?"; tail -4 /tmp/confirm_demo_mod.out
-g++ -std=c++11 -O1 -pthread -I/repo/include -I/repo/external/tl $INC $S/demo.cpp -o /tmp/confirm_demo_orig 2>&1 | tail -5
+g++ -std=c++11 -O1 -pthread -I$O/include -I$O/external/tl $INC $S/demo.cpp -o /tmp/confirm_demo_orig 2>&1 | tail -5
 /tmp/confirm_demo_orig > /tmp/confirm_demo_orig.out 2>&1; echo "demo on unmodified tree: exit $?"; tail -2 /tmp/confirm_demo_orig.out
 fi
 git checkout -- .
